@@ -276,6 +276,17 @@ def main():
               and "self.curr_idx += 1;" in body and not re.search(r"\breturn\b", body) and len(re.findall(r"Ok\(\(\)\)", body)) == 1
               and re.search(r"self\.destination\.write_all\(&buffer\[start\.\.end\]\)\?;", body) is not None)
         dir_adv = "some true" if ok else "some false"
+    # exception_stream::write: with a crash context the record carries the caller's signal number, code and address verbatim;
+    # the fallback context's location is taken from the allocation itself
+    es = read("src/linux/sections/exception_stream.rs")
+    exc_verbatim = "none"
+    me = re.search(r"if let Some\(context\) = &config\.crash_context \{\s*MDException \{(.*?)\.\.Default::default\(\)", es, re.S)
+    if me:
+        fields = re.sub(r"\s+", "", me.group(1))
+        exc_verbatim = "some true" if fields == "exception_code:context.inner.siginfo.ssi_signo,exception_flags:context.inner.siginfo.ssi_codeasu32,exception_address:context.inner.siginfo.ssi_addr," else "some false"
+    exc_ctx_loc = "none"
+    if "context.fill_cpu_context(&mut cpu);" in es:
+        exc_ctx_loc = "some true" if re.search(r"context\.fill_cpu_context\(&mut cpu\);\s*MemoryWriter::alloc_with_val\(buffer, cpu\)\?\.location\(\)", es) else "some false"
     out = []
     out.append("/- GENERATED by gen/extract.py from /repo's source — do not edit. -/")
     out.append("namespace Mdw.Src\n")
@@ -307,6 +318,8 @@ def main():
     out.append(f"\n/-- the link-map walk of `write_dso_debug_stream` stops at an address it has visited before (a HashSet tested in the loop condition) (none = not recognisable) -/\ndef linkWalkVisited : Option Bool := {walk_visited}")
     out.append(f"\n/-- every link-map entry's name starts as a fresh empty string inside the loop (none = not recognisable) -/\ndef linkNameFresh : Option Bool := {name_fresh}")
     out.append(f"\n/-- `dump_dir_entry` sets the slot first, advances the cursor and writes the slot on every path: no early return (none = not recognisable) -/\ndef dirEntryAlwaysAdvances : Option Bool := {dir_adv}")
+    out.append(f"\n/-- with a crash context the exception record's code, flags and address are the caller's signal number, code and address, unfiltered (none = not recognisable) -/\ndef exceptionFieldsVerbatim : Option Bool := {exc_verbatim}")
+    out.append(f"\n/-- the fallback crash context (blamed thread not listed) is referred to by the location of its own allocation (none = not recognisable) -/\ndef exceptionContextLocOfAlloc : Option Bool := {exc_ctx_loc}")
     out.append("\nend Mdw.Src\n")
     text = "\n".join(out)
     os.makedirs(os.path.dirname(OUT), exist_ok=True)
